@@ -52,6 +52,13 @@ class Universe:
         l2 = cs.honest_chain(cs.P2)
         f = copy.deepcopy(s); f.auth = None; f.cal = dict(pub=cs.P2, aggr=cs.T, inp=s.cal["inp"], links=l2); f.pub = dict(time=cs.P2, imp=ksi.cal_aggregate(l2, s.cal["inp"])); forms["pub2"] = f
         f = copy.deepcopy(s); f.chains[0]["index"] = list(f.chains[0]["index"]); f.chains[0]["index"][-1] ^= 1; forms["broken"] = f
+        # a signature for the root of a local aggregation tree + the local chain of one leaf (to be prepended)
+        leaf = ksi.imprint(1, b"c11-local-leaf-%d" % rng.randrange(1 << 30))
+        llinks = ksi.rand_links(rng, rng.choice([1, 2, 3]), kinds=("imprint", "meta"))
+        lroot, llevel = ksi.aggregate(llinks, leaf, 0, 1)
+        forms["local"] = ksi.build_sig(rng, lroot, level=llevel, nchains=2, time=cs.T, anchor="auth", kinds=("imprint", "legacy"))
+        self.local_chain = ksi.aggr_chain_tlv(cs.T, [ksi.shape_index(llinks)], leaf, 1, llinks)
+        self.local_leaf = leaf
         self.bytes = {k: v.tlv() for k, v in forms.items()}
         self.bytes["nonmin"] = nonminimal(self.bytes["pub"])
         cs.e = dict(c04_good(), up="given", upTime="atSigPub", pfc=dict(atSig="match", later="true"))
@@ -146,6 +153,15 @@ def run(chk, tier, seed):
                     if "rc=0x0" not in r:
                         chk.violation("derive-failed:%s:%s" % (o, op["post"][str(a)]["base"]), "%s failed on an honest extender: %s" % (what, r), dict(trace=tr[:si + 1], log=[x[:300] for x in S.log[-10:]])); break
                     created[a] = ("derived", None)
+                elif o == "prepend":
+                    out = S.cmd("OPREPEND %d %d %s" % (a, b_, U.local_chain.hex()))
+                    if "rc=0x0" not in out[-1]:
+                        chk.violation("derive-failed:prepend", "%s failed: %s" % (what, out[-1]), dict(trace=tr[:si + 1])); break
+                    created[a] = ("derived", None)
+                    v = U.verify(S, "@%d" % a, "INTERNAL", "-", "-")
+                    v2 = netsim.kv(S.cmd("VERIFY INTERNAL @%d - - 0 %s 0" % (a, U.local_leaf.hex()))[-1])
+                    if v[1] != "0" or v2.get("res") != "0":
+                        chk.violation("prepend:result-does-not-verify", "the signature with the prepended local chain does not verify for the local leaf: %s / %s" % (v, v2), dict(trace=tr[:si + 1]))
                 elif o == "addlevel":
                     out = S.cmd("OLEVEL %d %d %d" % (a, b_, c))
                     if c == 0:
